@@ -547,6 +547,15 @@ fn corpus() -> Vec<(Ty, String)> {
         v.push((Ty::Map(Box::new(Ty::Option(Box::new(Ty::Str))), Box::new(i32t())), t.replace("\\n", "\n")));
         v.push((Ty::Map(Box::new(Ty::Any), Box::new(Ty::Any)), t.replace("\\n", "\n")));
     }
+    // tag-selected variant payloads reached through an alias (fix e5db46c: the replayed payload keeps the alias token
+    // as use site): values, and type errors inside the payload (error kind and both locations are compared)
+    for t in ["r: &r !A 5\ns: *r\n", "r: &r !A oops\ns: *r\n", "r: &r !C [1, 2]\ns: *r\n", "r: &r !C [1, x]\ns: *r\n", "r: &r !C [1, 2, 3]\ns: *r\n",
+              "r: &r !D {x: 1}\ns: *r\n", "r: &r !D {x: q}\ns: *r\n", "r: &r !O ~\ns: *r\n", "r: &r !A [1]\ns: *r\n", "q: &q 7\nr: !C [1, *q]\ns: !A *q\n",
+              "q: &q x\nr: !C [1, *q]\ns: !B ~\n", "r: &r [!A 1, !A z]\ns: *r\n", "r: !A 5\ns: !C [1, z]\n"] {
+        v.push((Ty::Map(Box::new(Ty::Str), Box::new(e())), t.replace("\\n", "\n")));
+        v.push((Ty::Struct(vec![("r", Ty::Any), ("s", e())], false), t.replace("\\n", "\n")));
+        v.push((Ty::Struct(vec![("r", Ty::Any), ("s", Ty::Seq(Box::new(e())))], false), t.replace("\\n", "\n")));
+    }
     for t in ["&a \"\"", "- &a ''\n- *a\n", "[1, 2, 3]", "[1]", "~", "", "[[1, 2], [3]]"] {
         v.push((Ty::Any, t.replace("\\n", "\n")));
         v.push((Ty::Tuple(vec![Ty::Any, Ty::Any]), t.replace("\\n", "\n")));
